@@ -499,21 +499,30 @@ def hypothesis_view(case, obs):
 # generation
 
 
-def _solutions():
-    sols = []
-    for a in range(0, 2501):
-        for b in range(a, 2501):
-            c2 = LIMIT2 - a * a - b * b
-            if c2 < b * b:
+def _solutions(targets):
+    """all a <= b <= c with a^2+b^2+c^2 = t, for each t in targets (one pass)"""
+    sols = {t: [] for t in targets}
+    top = max(targets)
+    for a in range(0, 2502):
+        for b in range(a, 2502):
+            if top - a * a - b * b < b * b:
                 break
-            c = math.isqrt(c2)
-            if c * c == c2:
-                sols.append((a, b, c))
+            for t in targets:
+                c2 = t - a * a - b * b
+                if c2 < b * b:
+                    continue
+                c = math.isqrt(c2)
+                if c * c == c2:
+                    sols[t].append((a, b, c))
     return sols
 
 
-BOUNDARY = _solutions()  # integer vectors of length exactly 2500
+# 6249999 = 7 mod 8 is not a sum of three squares: the nearest representable values are 6249998 and 6250001
+_SOLS = _solutions([LIMIT2 - 2, LIMIT2, LIMIT2 + 1])
+BOUNDARY = _SOLS[LIMIT2]  # integer vectors of length exactly 2500
 BOUNDARY_DYADIC = [s for s in BOUNDARY if all(x % 125 == 0 for x in s)]
+JUST_IN = _SOLS[LIMIT2 - 2]  # 2.4999996 A
+JUST_OUT = _SOLS[LIMIT2 + 1]  # 2.5000002 A
 
 
 def _signed_perm(rng, v):
@@ -544,6 +553,8 @@ def pair_vector(rng, cls):
         return _signed_perm(rng, rng.choice(BOUNDARY_DYADIC)), True
     if cls == "exact_generic":
         return _signed_perm(rng, rng.choice(BOUNDARY)), False
+    if cls in ("just_in", "just_out") and rng.random() < 0.5:
+        return _signed_perm(rng, rng.choice(JUST_IN if cls == "just_in" else JUST_OUT)), False
     if cls in ("just_in", "just_out"):
         # squared length within a few units of 6 250 000 (distance differs from 2.5 by ~1e-7 A)
         for _ in range(200):
@@ -953,8 +964,8 @@ def run(ctx):
     )
     ok = core.proof_stage(ctx, "C13", THEOREMS, ALLOWED_AXIOMS)
     rng = ctx.rng
-    ngeo = 3000 if ctx.thorough else 450
-    ndrv = 200 if ctx.thorough else 36
+    ngeo = 3000 if ctx.thorough else 700
+    ndrv = 200 if ctx.thorough else 50
 
     # ---- direct mode: geometry x 3 layouts
     groups = []  # list of lists of case indices sharing a geometry
